@@ -117,7 +117,10 @@ class PlatformBatchLightSystem:
             await self.dirty_lights_changed.wait()
             self.dirty_lights_changed.clear()
             sequential_lights = []
-            for light in list(self.dirty_lights):
+            # take the set: lights which get dirty while a batch is being sent belong to the next round
+            dirty_lights = list(self.dirty_lights)
+            self.dirty_lights.clear()
+            for light in dirty_lights:
                 if not sequential_lights:
                     # first light
                     sequential_lights = [light]
@@ -132,8 +135,6 @@ class PlatformBatchLightSystem:
 
             if sequential_lights:
                 await self._send_update_batch(sequential_lights, max_fade_tolerance)
-
-            self.dirty_lights.clear()
 
             await asyncio.sleep(poll_sleep_time)
 
